@@ -983,6 +983,56 @@ def splice_function(ft, directives, security=False):
                 ed.replace(src.t(lcb).pos, src.t(lcb).end, '; vi_%d = vi_%d + 1; }' % (k, k))
                 fired.append(('R22', src.line_of(start), 'for over values_mut() -> keys snapshot + get_mut (vk_%d, vi_%d)' % (k, k)))
                 continue
+            if into == 'iter_mut_filter':
+                # R23 (unit `acknack`, sibling of R22):
+                #   `for (KP, VP) in PLACE.iter_mut().filter(|(FK, FV)| FBODY) { BODY }`  ->
+                #   let vk_k = PLACE.vx_keys(); let mut vi_k: usize = 0;
+                #   while vi_k < vk_k.len() { <loop_body_start text>
+                #     let vx_k_k = &vk_k[vi_k]; let vx_v_k = PLACE.get_mut(vx_k_k).unwrap();
+                #     if ({ let (FK, FV) = (&vx_k_k, &vx_v_k); FBODY }) { let (KP, VP) = (vx_k_k, vx_v_k); BODY }
+                #     ; vi_k = vi_k + 1; }
+                # iter_mut() visits every entry exactly once (the key set cannot change while the map
+                # is borrowed); Iterator::filter hands the predicate `&Item` = `&(&K, &mut V)` — the
+                # tuple pattern (FK, FV) then binds `&&K` / `&&mut V` (default binding modes), which is
+                # what `(&vx_k_k, &vx_v_k)` provides — and skips the items the predicate rejects
+                # (`if !FILTER { continue }`, written as `if FILTER { BODY }`).  vx_keys() (shim) returns
+                # each key exactly once, in no particular order.  Guards: PLACE is a field path / local,
+                # both patterns are parenthesised 2-tuples, BODY has no `continue`.
+                # `@@loop_body_end k` text lands at the end of BODY (inside the `if`).
+                j = in_si + 1
+                pl = []
+                while j < lob and (src.t(j).kind == 'ident' or src.s(j) == '.') and not (src.s(j) == '.' and src.s(j + 1) == 'iter_mut'):
+                    pl.append(src.s(j)); j += 1
+                place = ''.join(pl)
+                if not re.fullmatch(r'[A-Za-z_][A-Za-z0-9_]*(\.[A-Za-z_][A-Za-z0-9_]*)*', place):
+                    raise Undecided('unsupported-construct', 'iter_mut() on a non-place expression in %s' % ft.name)
+                want = ['.', 'iter_mut', '(', ')', '.', 'filter', '(', '|', '(']
+                if [src.s(j + x) for x in range(len(want))] != want:
+                    raise Undecided('lost-anchor', 'loop %d of %s does not iterate over PLACE.iter_mut().filter(|(..)| ..)' % (k, ft.name))
+                f_open = j + 6                      # '(' of filter(
+                f_close = src.match[f_open]
+                if f_close != lob - 1:
+                    raise Undecided('unsupported-construct', 'iter_mut().filter(..) followed by further adapters in %s' % ft.name)
+                fp_open = j + 8                     # '(' of the closure's tuple pattern
+                fp_close = src.match[fp_open]
+                if src.s(fp_close + 1) != '|':
+                    raise Undecided('unsupported-construct', 'filter closure of loop %d in %s: parameter is not one tuple pattern' % (k, ft.name))
+                fpat = text[src.t(fp_open).pos:src.t(fp_close).end]
+                fbody = text[src.t(fp_close + 2).pos:src.t(f_close - 1).end]
+                if not (pat.strip().startswith('(') and pat.strip().endswith(')')):
+                    raise Undecided('unsupported-construct', 'loop %d of %s: pattern is not a tuple pattern' % (k, ft.name))
+                if any(src.s(x) == 'continue' for x in range(lob, lcb)):
+                    raise Undecided('unsupported-construct', '`continue` inside an iter_mut().filter() loop in %s' % ft.name)
+                new1 = 'let vk_%d = %s.vx_keys(); let mut vi_%d: usize = 0; ' % (k, place, k)
+                new2 = 'while vi_%d < vk_%d.len() ' % (k, k)
+                new3 = '{ '
+                new4 = ('let vx_k_%d = &vk_%d[vi_%d]; let vx_v_%d = %s.get_mut(vx_k_%d).unwrap(); '
+                        'if ({ let %s = (&vx_k_%d, &vx_v_%d); %s }) { let %s = (vx_k_%d, vx_v_%d); '
+                        % (k, k, k, k, place, k, fpat.replace('\n', ' '), k, k, fbody.replace('\n', ' '), pat.replace('\n', ' '), k, k))
+                desugared[k] = (start, src.t(lob).end, new1, new2, new3, keep_newlines(whole), new4)
+                ed.replace(src.t(lcb).pos, src.t(lcb).end, '} ; vi_%d = vi_%d + 1; }' % (k, k))
+                fired.append(('R23', src.line_of(start), 'for over iter_mut().filter(..) -> keys snapshot + get_mut + if FILTER (vk_%d, vi_%d)' % (k, k)))
+                continue
             new1 = 'let mut %s = %s%s; ' % (itn, expr.replace('\n', ' '), call)
             new2 = '%sloop ' % labtxt
             new3 = '{ match %s.next() { None => { break; } Some(%s) => { %s' % (itn, pat2.replace('\n', ' '), pre)
@@ -1134,6 +1184,33 @@ def splice_function(ft, directives, security=False):
                         break
                     k -= 1
                 add(src.t(k + 1).pos, lines, 'befs', order=-3)
+        elif d.kind == 'before_arm':
+            # R24 (added for unit `reader_glue`): `@@before_arm "<tokens>" [n]` — the tokens start the
+            # body expression of a match arm (`PAT => EXPR,`); the arm body becomes the block
+            # `PAT => { <payload> EXPR },` so that a proof assertion about the values handed to
+            # EXPR can be stated.  Guard: the token before the anchor is `=>` (else lost-anchor).
+            try:
+                parts = shlex.split(d.arg)
+            except ValueError as e:
+                raise Undecided('lost-anchor', 'bad anchor syntax %r' % d.arg)
+            needle = parts[0]
+            nth = int(parts[1]) if len(parts) > 1 else 1
+            hit = find_token_seq(src, ob + 1, cb, needle, nth)
+            if hit is None or src.s(hit[0] - 1) != '=>':
+                raise Undecided('lost-anchor', 'arm-body anchor %r #%d not found after `=>` in %s' % (needle, nth, ft.name))
+            k = hit[0]
+            while k < cb:
+                sk = src.s(k)
+                if sk in rscan.OPEN:
+                    k = src.match[k] + 1
+                    continue
+                if sk == ',' or sk in rscan.CLOSE:
+                    break
+                k += 1
+            lines = [('{', {'o': 'src'})] + [(ln, {'o': 'clause', 'label': 'aux.%s.proof' % ft.name}) for ln in d.payload.rstrip().split('\n')]
+            add(src.t(hit[0]).pos, lines, 'barm', order=-3)
+            ed.insert(src.t(k - 1).end, ' }')
+            fired.append(('R24', src.line_of(src.t(hit[0]).pos), 'match-arm body wrapped in a block for a proof annotation'))
         elif d.kind == 'type_local':
             # R13  `x: T`
             nm, ty = d.arg.split(':', 1)
